@@ -305,3 +305,30 @@ V("c18-benign-os-urandom", "C18", "benign", "", "IV from os.urandom",
   "rfc7516/models.py", "        return secrets.token_bytes(self.iv_size // 8)", "        import os\n        return os.urandom(self.iv_size // 8)")
 V("c18-benign-iv-local", "C18", "benign", "", "IV bound to a local in perform_encrypt via a size variable",
   "rfc7516/models.py", "        return secrets.token_bytes(self.iv_size // 8)", "        size = self.iv_size // 8\n        value = secrets.token_bytes(size)\n        return value")
+
+# ------------------------------------------------------------------------------------------------ C12
+V("c12-dp-public", "C12", "break", "R12.1", "RSA dp registered as public",
+  "rfc7518/rsa_key.py", '"dp": KeyParameter("First Factor CRT Exponent", "str", private=True, required=False),', '"dp": KeyParameter("First Factor CRT Exponent", "str", private=False, required=False),')
+V("c12-filter-only-d", "C12", "break", "R12.2", "public filter deletes only 'd'",
+  "rfc7517/models.py", "            if k in self.value_registry and self.value_registry[k].private:\n                del data[k]", "            if k == \"d\":\n                del data[k]")
+V("c12-private-on-public-silent", "C12", "break", "R12.2", "private export of a public key no longer raises",
+  "rfc7517/models.py", "        if private and not self.is_private:\n            raise ValueError(\"This key is not a private key.\")\n", "")
+V("c12-filter-none-too", "C12", "break", "R12.2", "filter skipped when private is falsy but not False ... inverted test",
+  "rfc7517/models.py", "        if private is not False:\n            data.update(params)\n            return data", "        if private is not True and private is not False or private:\n            data.update(params)\n            return data\n        if self.key_type == \"oct\":\n            return data")
+V("c12-epk-private", "C12", "break", "R12.4", "epk exported with its private part",
+  "rfc7516/models.py", "recipient.add_header(\"epk\", recipient.ephemeral_key.as_dict(private=False))", "recipient.add_header(\"epk\", recipient.ephemeral_key.as_dict())")
+V("c12-keyset-drops-flag", "C12", "break", "R12.5", "KeySet.as_dict drops the private flag",
+  "_keys.py", "            keys.append(key.as_dict(private=private, **params))", "            keys.append(key.as_dict(**params))")
+V("c12-kid-from-raw", "C12", "break", "R12.6", "kid header derived from raw key octets",
+  "rfc7516/models.py", "    def set_kid(self, kid: str) -> None:\n        self.add_header(\"kid\", kid)", "    def set_kid(self, kid: str) -> None:\n        key = self.recipient_key\n        self.add_header(\"kid\", kid or key.raw_value.hex())")
+V("c12-token-module-as-dict", "C12", "break", "R12.6", "JWS compact serialization embeds the key as jwk header",
+  "jws.py", "    key.check_alg(protected[\"alg\"])\n    out = sign_compact(obj, alg, key)", "    key.check_alg(protected[\"alg\"])\n    protected.setdefault(\"jwk\", key.as_dict())\n    out = sign_compact(obj, alg, key)")
+V("c12-pem-public-branch-private", "C12", "break", "R12.7", "as_bytes(private=False) dumps the raw (private) key",
+  "rfc7517/pem.py", "            return dump_pem_key(key.public_key, encoding, private, password)", "            return dump_pem_key(key.raw_value, encoding, key.is_private, password)")
+V("c12-ec-public-export-d", "C12", "break", "R12.3", "EC export_public_key includes d when available",
+  "rfc7518/ec_key.py", "        numbers = key.public_numbers()\n        return {\n            \"crv\": cls._curves_dss[numbers.curve.name],\n            \"x\": int_to_base64(numbers.x),\n            \"y\": int_to_base64(numbers.y),\n        }",
+  "        numbers = key.public_numbers()\n        rv = {\n            \"crv\": cls._curves_dss[numbers.curve.name],\n            \"x\": int_to_base64(numbers.x),\n            \"y\": int_to_base64(numbers.y),\n        }\n        if hasattr(key, \"private_numbers\"):\n            rv[\"d\"] = int_to_base64(key.private_numbers().private_value)\n        return rv")
+V("c12-benign-filter-comprehension-like", "C12", "benign", "", "filter iterates a list copy of the keys",
+  "rfc7517/models.py", "        for k in self.dict_value:\n            if k in self.value_registry and self.value_registry[k].private:", "        for k in list(self.dict_value):\n            if k in self.value_registry and self.value_registry[k].private:")
+V("c12-benign-okp-export-local", "C12", "benign", "", "OKP export_public_key assigns the dict to a local first",
+  "rfc8037/okp_key.py", "        return {\n            \"crv\": get_key_curve(key),\n            \"x\": urlsafe_b64encode(x_bytes).decode(\"utf-8\"),\n        }", "        rv = {\n            \"crv\": get_key_curve(key),\n            \"x\": urlsafe_b64encode(x_bytes).decode(\"utf-8\"),\n        }\n        return rv")
